@@ -12,11 +12,19 @@ from ..runner import Entry, differential
 from . import c20_translate
 from . import c20_seq
 
-PRE = "From EsVerif.Common Require Import Base.\nFrom EsVerif.C20 Require Import Model Model2 Spec Meter Exec.\n"
+PRE = "From EsVerif.Common Require Import Base.\nFrom EsVerif.C20 Require Import Model Model2 Spec Meter Shape Exec.\n"
 
 
 def cpairs(l):
     return "[" + "; ".join("(%s, %s)" % (cz(a), cz(b)) for a, b in l) + "]"
+
+
+def cbig(xs, f=clist, piece=2000):
+    """a long list literal as a concatenation of pieces (coqc's parser overflows its stack on one very long literal)"""
+    xs = list(xs)
+    if len(xs) <= piece:
+        return f(xs)
+    return "(concat [%s])" % "; ".join(f(xs[i:i + piece]) for i in range(0, len(xs), piece))
 
 
 def cres(out, f):
@@ -85,6 +93,9 @@ class SplitArray(Entry):
                 for n in (0, 1, 6):
                     cs.append({"nper": nper, "var": list(range(n)), "family": "non-positive nper"})
             cs.append({"nper": 10**6, "var": [4, 5, 6], "family": "grid"})
+            # more than 2^16 elements, blocked with a remainder
+            nbig = 32771 if ctx.quick() else 65539
+            cs.append({"nper": 4096, "var": [(7 * i) % 1000 for i in range(nbig)], "family": "scale > 2^15 (quick) / 2^16 (thorough)"})
             if not ctx.quick():
                 for n in range(0, 31):
                     for nper in range(1, 13):
@@ -104,8 +115,8 @@ class SplitArray(Entry):
         return core.guarded(f)
 
     def term(self, c, out):
-        return "v_splitarray %s %s %s" % (cz(c["nper"]), clist(c["var"]),
-                                          cres(out, lambda l: "[" + "; ".join(clist(x) for x in l) + "]"))
+        return "v_splitarray %s %s %s" % (cz(c["nper"]), cbig(c["var"]),
+                                          cres(out, lambda l: "[" + "; ".join(cbig(x) for x in l) + "]"))
 
     def nontrivial(self, c, out):
         return c["nper"] >= 1 and len(c["var"]) >= 3 and len(c["var"]) % c["nper"] != 0 and c["nper"] < len(c["var"])
@@ -211,6 +222,10 @@ class QuickSortKV(Entry):
     def cases(self, ctx, round=0):
         r = ctx.rng
         cs = [{"k": a, "v": list(range(100, 100 + len(a))), "family": k} for a, k in _arrays(ctx, round)]
+        # aliasing: the SAME object passed as keys and as values
+        for n in ([0, 1, 2, 7, 15] if round == 0 else [r.randrange(0, 30)]):
+            a = [r.randrange(0, 5) for _ in range(n)]
+            cs.append({"k": a, "v": list(a), "aliased": True, "container": r.choice(["list", "ndarray"]), "family": "aliased keys is values"})
         # values are opaque payloads ("values only need the [] operator"): tied keys with values that cannot be ordered
         for kind in PAYLOADS:
             for n in ([2, 5, 8, 9, 23] if round == 0 else [r.randrange(2, 40)]):
@@ -226,6 +241,11 @@ class QuickSortKV(Entry):
         import esutil.algorithm as alg
 
         def f():
+            if c.get("aliased"):
+                import numpy as np
+                k = list(c["k"]) if c["container"] == "list" else np.array(c["k"], dtype="i8")
+                alg.quicksort_keyvalue(k, k)
+                return [(int(a), int(a)) for a in k]
             if not c.get("payload"):
                 k, v = list(c["k"]), list(c["v"])
                 alg.quicksort_keyvalue(k, v)
@@ -260,6 +280,16 @@ class PBar(Entry):
     def cases(self, ctx, round=0):
         r = ctx.rng
         cs = []
+        if round == 0:
+            # every keyword left at its default (only file= is given, to keep stderr quiet)
+            for kind in ("list", "range", "generator", "prange"):
+                for n in (0, 1, 5):
+                    cs.append({"kind": kind, "n": n, "simple": False, "total": "none", "defaults": True, "desc": "", "leave": True,
+                               "mininterval": 0.5, "miniters": 1, "n_bars": 20, "family": "defaults/" + kind})
+            if not ctx.quick():
+                for kind, simple in (("list", False), ("generator", False), ("range", True)):
+                    cs.append({"kind": kind, "n": 40000, "simple": simple, "total": "none" if kind != "generator" else "exact",
+                               "desc": "", "leave": True, "mininterval": 0.5, "miniters": 1000, "n_bars": 20, "family": "scale > 2^15"})
         kinds = ["list", "range", "generator", "prange"]
         for kind in kinds:
             for n in ([0, 1, 3, 12] if round == 0 else [r.randrange(0, 30)]):
@@ -296,6 +326,8 @@ class PBar(Entry):
         buf = io.StringIO()
         kw = dict(desc=c["desc"], total=self._total(c), leave=c["leave"], file=buf,
                   mininterval=c["mininterval"], miniters=c["miniters"], n_bars=c["n_bars"], simple=c["simple"])
+        if c.get("defaults"):
+            kw = dict(file=buf)
         got, end = [], None
         try:
             if c["kind"] == "prange":
@@ -316,12 +348,12 @@ class PBar(Entry):
 
     def term(self, c, out):
         items = [10 + 3 * i for i in range(c["n"])]
-        o = "(%s, %s)" % (cpairs(out["yielded"]), "None" if out["end"] is None else "Some " + out["end"])
+        o = "(%s, %s)" % (cbig(out["yielded"], cpairs), "None" if out["end"] is None else "Some " + out["end"])
         if c["simple"] or out["end"] is not None:
-            return "v_pbar %s %s %s" % (self._cfg(c), clist(items), o)
+            return "v_pbar %s %s %s" % (self._cfg(c), cbig(items), o)
         # the full bar: the meters written to file= as well (deterministic schedule when mininterval = 0)
         return "v_pbar_prints %s %s %s %s %s %s %s" % (self._cfg(c), cz(c["miniters"]), cbool(c["leave"]),
-                                                      cbool(c["mininterval"] == 0), clist(items), o, cprints(out["prints"]))
+                                                      cbool(c["mininterval"] == 0), cbig(items), o, cprints(out["prints"]))
 
     def nontrivial(self, c, out):
         return c["n"] >= 3
@@ -381,6 +413,20 @@ class PMap(Entry):
     def cases(self, ctx, round=0):
         r = ctx.rng
         cs = []
+        if round == 0:
+            base = {"a": 2, "b": -1, "lat": 3, "total": "absent"}
+            for items in ([], [4], [3, 1, 2, 5, 4, 0, 7]):
+                cs.append(dict(base, items=items, chunksize=1, nproc=1, defaults=True, family="defaults (chunksize, nproc omitted)"))
+            # progress-bar keywords forwarded through pmap (each fine alone): simple x total
+            for simple in (False, True):
+                for tot in ("absent", "exact", "less", "more", "zero"):
+                    n = r.randrange(3, 9)
+                    cs.append({"a": r.randrange(-3, 4), "b": r.randrange(-9, 10), "lat": r.randrange(1, 50),
+                               "items": [r.randrange(-20, 20) for _ in range(n)], "chunksize": r.choice([1, 2, n + 1]),
+                               "nproc": r.choice([1, 3]), "bar": {"simple": simple, "total": tot},
+                               "family": "bar keywords/%s/total=%s" % ("simple" if simple else "full", tot)})
+            # blocked processing with a remainder, more items than a few chunks
+            cs.append(dict(base, items=[(13 * i) % 41 - 20 for i in range(300)], chunksize=7, nproc=3, family="scale 300 items / chunks of 7"))
         for nproc in ([1, 2, 4, 8] if round == 0 else [3, 5]):
             for _ in range(ctx.n(4, 12)):
                 n = r.randrange(0, 14)
@@ -395,11 +441,35 @@ class PMap(Entry):
         from . import c20_tasks
         fn = functools.partial(c20_tasks.task, c["a"], c["b"], c["lat"])
         kw = {"file": io.StringIO()}
-        if c["total"] == "given":
+        if c.get("total") == "given":
             kw["total"] = len(c["items"])
+        if c.get("defaults"):
+            return core.guarded(lambda: [int(x) for x in pb.pmap(fn, c["items"], **kw)])
+        if c.get("bar"):
+            kw["simple"] = c["bar"]["simple"]
+            t = self._bar_total(c)
+            if t is not None:
+                kw["total"] = t
+
+            def f():
+                try:
+                    return {"end": None, "res": [int(x) for x in pb.pmap(fn, c["items"], chunksize=c["chunksize"], nproc=c["nproc"], **kw)]}
+                except Exception as e:  # noqa
+                    return {"end": core.errclass(e), "res": []}
+            return ("ok", f())
         return core.guarded(lambda: [int(x) for x in pb.pmap(fn, c["items"], chunksize=c["chunksize"], nproc=c["nproc"], **kw)])
 
+    @staticmethod
+    def _bar_total(c):
+        n = len(c["items"])
+        return {"absent": None, "exact": n, "less": max(n - 2, 1), "more": n + 5, "zero": 0}[c["bar"]["total"]]
+
     def term(self, c, out):
+        if c.get("bar"):
+            o = out[1]
+            cfg = "{| simple := %s; has_len := false; total := %s |}" % (cbool(c["bar"]["simple"]), copt(self._bar_total(c)))
+            return "v_pmap_kw %s %s %s %s %s %s %s" % (cfg, cz(c["a"]), cz(c["b"]), clist(c["items"]), cz(c["chunksize"]),
+                                                     "None" if o["end"] is None else "(Some %s)" % o["end"], clist(o["res"]))
         return "v_pmap %s %s %s %s %s" % (cz(c["a"]), cz(c["b"]), clist(c["items"]), cz(c["chunksize"]), cres(out, clist))
 
     def nontrivial(self, c, out):
@@ -810,7 +880,8 @@ def h_pmap(r):
     v2 = _same_ends(r, v1)
     f1, f2 = _pm_kw(r, n), _pm_kw(r, n)
     f2["chunksize"], f2["nproc"] = f1["chunksize"], f1["nproc"]
-    return [{"op": "set", "obj": "P", "kind": "list", "values": v1}, {"op": "pmap", "obj": "P", "kw": f1},
+    return [{"op": "set", "obj": "P", "kind": "list", "values": v1}, {"op": "pmap", "obj": "P", "kw": dict(f1, scribble=True)},
+            {"op": "pmap", "obj": "P", "kw": f1},                                                         # after the caller changed the RESULT
             {"op": "set", "obj": "P", "kind": "list", "values": v2}, {"op": "pmap", "obj": "P", "kw": f1},     # same object, modified
             {"op": "pmap", "obj": "P", "kw": f2},                                                         # same items, other function
             {"op": "pmap", "obj": "P", "kw": _pm_kw(r, n, exn=True)},                                     # a call that raises ...
